@@ -55,16 +55,30 @@ def items(tier):
     return out
 
 
+def resume_items(tier):
+    """runs stopped at step k and continued with state and logs kept: the component life cycle must go on where it was"""
+    out = []
+    base = [(sp, o) for sp, o in items(tier) if not any(k in o for k in ("backward", "post_insert", "reload", "presim"))]
+    sel = base[:: (9 if tier == "quick" else 3)] + [(F.idle_component_spec(), {"rule": "TSLACK", "max_time": 14}), (F.waiting_component_spec(), {"rule": "TSLACK", "max_time": 14}),
+                                                  (F.shared_child_spec(), {"rule": "TSLACK", "max_time": 20})]
+    for sp, o in sel:
+        for k in range(1, 6):
+            out.append((sp, dict(o, resume_from=k)))
+    return out
+
+
 def run(tier, seed):
     H, D = (4, 1) if tier == "quick" else (5, 2)
     its = items(tier)
     col = stepcheck.explore(its, MONS, H, D, who_fn=lambda sp: ["P"] + F.worker_names(sp)[:1], seed=seed)
+    ri = resume_items(tier)
+    col.merge(stepcheck.explore(ri, MONS, 0, 0, seed=seed))
     meta = {
         "level": "model_checking",
         "rule": "FS/SS workflows on 3 tasks x every assignment of the tasks to <=2 (thorough 3) components or to none (incl. empty components) x progress/auto variants, "
         "plus the FAC family (nested components, placement), and a slice of all of these observed on a second simulate() of the same project object, each explored over absence answers (project, first worker) up to horizon H with <= D non-default answers; "
         "non-trivial = distinct (model, component, mixed task-state vector, component state) observations",
-        "bounds": {"H": H, "D": D, "base_models": len(its)},
+        "bounds": {"H": H, "D": D, "base_models": len(its), "runs stopped at step 1..5 and continued": len(ri)},
         "assumptions": ["log clause uses the documented display rule (WORKING logged as READY at project-wide absence steps) for tasks and components alike"],
     }
     if not col.nontrivial:
